@@ -72,7 +72,7 @@ def verify_one(args):
             'called': sorted(interp.called),
         }
         return res
-    except Exception as e:   # engine crash: never a violation
+    except (Exception, SystemExit) as e:   # engine crash / unparsable source: never a violation (and never a dead pool worker: pool.map would wait for ever)
         return {'fuc': key, 'key': key, 'crash': f'{type(e).__name__}: {e}', 'trace': traceback.format_exc(),
                 'obligations': [], 'undecided': [], 'props': [], 'wall_s': round(time.time() - t0, 3)}
 
